@@ -246,13 +246,17 @@ def check_node_buffer(res, props: set, mdp: RefMDP, node: OffNode, i: int, buf: 
 # --------------------------------------------------------------------------- RefTD (DQN)
 
 
-def dqn_reference_step(q_online, q_target, rows, gamma: float, lr: float):
+def dqn_reference_step(q_online, q_target, rows, gamma: float, lr: float, qbias=None):
     """One full-batch SGD step of the Double-DQN regression on tabular Q (float64).
 
-    rows: list of dict(s, a, r, s2, done, timeout).  Returns (new_q, loss, targets).
+    rows: list of dict(s, a, r, s2, done, timeout[, k, k2]).  Returns (new_q, loss, targets).
+    With ``qbias`` (constant, shared by online and target network) Q(h, s) = table[s] + qbias[min(k, KB-1)]: the transition's
+    own policy state k evaluates the action taken, the successor policy state k2 = k + 1 evaluates both networks at s'.
     """
     q = np.asarray(q_online, dtype=np.float64)
     qt = np.asarray(q_target, dtype=np.float64)
+    qb = np.zeros((3, q.shape[1])) if qbias is None else np.asarray(qbias, dtype=np.float64)
+    bias = lambda k: qb[min(int(k), qb.shape[0] - 1)]  # noqa: E731
     B = len(rows)
     grad = np.zeros_like(q)
     loss = 0.0
@@ -261,22 +265,24 @@ def dqn_reference_step(q_online, q_target, rows, gamma: float, lr: float):
         s, a, s2 = row["s"], int(row["a"]), row["s2"]
         # ground truth scheduled by the simulator when available, else the stored flags
         terminated = row["term_true"] if "term_true" in row else (row["done"] and not row["timeout"])
-        a_star = int(np.argmax(q[s2]))
-        y = row["r"] + gamma * (0.0 if terminated else 1.0) * qt[s2, a_star]
+        b2 = bias(row.get("k2", 0))
+        a_star = int(np.argmax(q[s2] + b2))
+        y = row["r"] + gamma * (0.0 if terminated else 1.0) * (qt[s2, a_star] + b2[a_star])
         targets.append(y)
-        d = q[s, a] - y
+        d = q[s, a] + bias(row.get("k", 0))[a] - y
         loss += d * d
         grad[s, a] += d / B
     loss = loss / B / 2
     return q - lr * grad, loss, targets
 
 
-def argmax_gap(q, rows) -> float:
+def argmax_gap(q, rows, qbias=None) -> float:
     """Smallest gap between best and second-best online Q over the successor states used."""
     q = np.asarray(q, dtype=np.float64)
+    qb = np.zeros((3, q.shape[1])) if qbias is None else np.asarray(qbias, dtype=np.float64)
     g = np.inf
     for row in rows:
-        v = np.sort(q[row["s2"]])[::-1]
+        v = np.sort(q[row["s2"]] + qb[min(int(row.get("k2", 0)), qb.shape[0] - 1)])[::-1]
         if len(v) > 1:
             g = min(g, v[0] - v[1])
     return float(g)
